@@ -26,12 +26,14 @@ def bounds(tier):
                 "dyadic": "all sequences of 1..4 items over {0,1/8,..,1}, B=1, ff/ffd/bf/bfd",
                 "output types": "all 10 on multisets of 1..4 items over 0..6, B=6",
                 "big": "B=2**32, letters {1, 2**31-1, 2**31, 2**31+1, 2**32-1, 2**32}: all sequences of 1..4 (ff/bf), multisets of 1..5 (ffd/bfd/bc); the same letters divided by 2**32 with B=1 (fit heuristics)",
+                "count-sweep": "for every m in 1..40: m items of 6 (B=10) alone / with m fours / with fours and threes / with 2m ones: 4 fit heuristics in 3 orders, bin-completion, all output types",
                 "long-thin": "multisets of 9..15 items over {1,2} (B=5), {1,2,3} (B=7), {2,3,5} (B=10), {0,1,4} (B=4): ff/bf in 6 fixed orders, ffd/bfd/bc"}
     return {"ff/bf": "all sequences of 1..6 items over 0..6, B=6; all sequences of 1..5 over 0..10 step... (0,1,2,3,4,5,7,10), B=10",
             "ffd/bfd/bc": "all multisets of 1..8 items over 0..6 (B=6), 1..7 over 0..10 (B=10), 1..6 over 0..12 (B=12), 1..6 over {0,1,3,5,7,10,13,20} (B=20), 1..9 over 1..10 (B=20)",
             "dyadic": "all sequences of 1..5 items over {0,1/8,..,1}, B=1",
             "output types": "all 10 on multisets of 1..5 items over 0..6, B=6",
             "big": "B=2**32, letters {1, 2**31-1, 2**31, 2**31+1, 2**32-1, 2**32}: all sequences of 1..5 (ff/bf), multisets of 1..6 (ffd/bfd/bc); the same letters divided by 2**32 with B=1 (fit heuristics)",
+            "count-sweep": "for every m in 1..140: m items of 6 (B=10) alone / with m fours / with fours and threes / with 2m ones: 4 fit heuristics in 3 orders, bin-completion, all output types",
             "long-thin": "multisets of 9..24 items over {1,2} (B=5), 9..16 over {1,2,3} (B=7), 9..14 over {2,3,5} (B=10), 9..14 over {0,1,4} (B=4): ff/bf in 6 fixed orders, ffd/bfd/bc"}
 
 
@@ -79,6 +81,8 @@ def tasks(tier):
             ts.append(("long-orders", ch, B))
             ts.append(("ms-dec", ch, B))
             ts.append(("ms-bc", ch, B))
+    for ch in spaces.chunked(scopes.count_sweep_packing(tier), 12):
+        ts.append(("count-sweep", ch, 10))
     return ts
 
 
@@ -116,6 +120,18 @@ def _outs(acc, algo, items, B):
 def run_task(task):
     scope, chunk, B = task
     acc = Acc(ID, scope)
+    if scope == "count-sweep":
+        for items, Bc, m in chunk:
+            acc.point(nontrivial=True)
+            for order in spaces.fixed_orders(items)[:3]:
+                for a in ("ff", "bf", "ffd", "bfd"):
+                    _one(acc, {"algo": a, "items": list(order), "B": Bc}, False)
+            if 10 * m == sum(items) or m <= 5:          # bin completion: where best-fit-decreasing already meets the volume bound, or small
+                _one(acc, {"algo": "bc", "items": list(items), "B": Bc}, True)
+            for a in ("ffd", "bf"):
+                _outs(acc, a, list(items), Bc)
+        acc.sample({"scope": scope, "first": f"{len(chunk[0][0])} items, optimum {chunk[0][2]} bins"})
+        return acc
     for it in chunk:
         items = [float(v) for v in it] if scope == "dyadic" else list(it)
         acc.point(nontrivial=(sum(items) > B))
